@@ -115,11 +115,11 @@ namespace
             return std::make_shared<d_array>();
         }
         // Get navigation path
+        // the enclosing classes from the root down to (and including) the config itself
         std::vector<value> path;
-        path.push_back(nav->name);
-        while (nav->id_parent_logical != config::invalid_id)
+        while (!nav.empty())
         {
-            path.push_back(nav->name);
+            path.push_back(value(*nav));
             nav = nav.parent_logical();
         }
 
